@@ -37,8 +37,12 @@ func genMembershipPlan(seed uint64, tier string) *Plan {
 		names = append(names, "pool-b.backends.test")
 	}
 	l := ListenCfg{Addr: "10.0.0.1", UDP: 5060, TCP: 5060}
-	for _, n := range names {
-		l.Backends = append(l.Backends, scheme+"://"+n+":5070")
+	for i, n := range names {
+		port := "5070"
+		if i > 0 {
+			port = g.pick("5070", "5080") // two names feeding one rotation need not use the same port
+		}
+		l.Backends = append(l.Backends, scheme+"://"+n+":"+port)
 	}
 	if g.chance(20) {
 		// a literal backend next to the named ones
@@ -95,7 +99,7 @@ func genMembershipPlan(seed uint64, tier string) *Plan {
 	if scheme == "tcp" {
 		for _, n := range names {
 			for _, ip := range dnsPool[n] {
-				c.TCPSinks = append(c.TCPSinks, ip+":5070")
+				c.TCPSinks = append(c.TCPSinks, ip+":5070", ip+":5080")
 			}
 		}
 		c.TCPSinks = append(c.TCPSinks, "10.2.30.1:5070")
@@ -141,10 +145,12 @@ func execMembership(t *testing.T, p *Plan) *Result {
 			for _, pool := range dnsPool {
 				for _, ip := range pool {
 					d.bindBackend(ip + ":5070")
+					d.bindBackend(ip + ":5080")
 				}
 			}
 		}
 		models := map[string]*nameModel{}
+		portOf := map[string]string{}
 		var names []string
 		literal := ""
 		for _, b := range l.Backends {
@@ -153,6 +159,7 @@ func execMembership(t *testing.T, p *Plan) *Result {
 			if _, ok := dnsPool[host]; ok {
 				names = append(names, host)
 				models[host] = &nameModel{}
+				portOf[host] = hp[strings.LastIndex(hp, ":")+1:]
 			} else {
 				literal = hp
 			}
@@ -181,7 +188,7 @@ func execMembership(t *testing.T, p *Plan) *Result {
 			var s []string
 			for _, n := range names {
 				for _, ip := range models[n].addrs {
-					s = append(s, ip+":5070")
+					s = append(s, ip+":"+portOf[n])
 				}
 			}
 			if literal != "" {
@@ -287,7 +294,7 @@ func execMembership(t *testing.T, p *Plan) *Result {
 						}
 					}
 					// answer from a member other than the one dispatched to (if there is one), and from a non-member
-					for _, from := range attributionSources(S, ems[0], models, names) {
+					for _, from := range attributionSources(S, ems[0], models, names, portOf) {
 						member := false
 						for _, s := range S {
 							if s == from {
@@ -456,7 +463,7 @@ func min4(n int) int {
 
 // attributionSources: a member other than the one the INVITE was dispatched
 // to (if any), and an address of the pools that is not in the rotation now.
-func attributionSources(S []string, dispatched string, models map[string]*nameModel, names []string) []string {
+func attributionSources(S []string, dispatched string, models map[string]*nameModel, names []string, portOf map[string]string) []string {
 	var out []string
 	for _, s := range S {
 		if s != dispatched {
@@ -473,8 +480,8 @@ func attributionSources(S []string, dispatched string, models map[string]*nameMo
 	}
 	for _, n := range names {
 		for _, ip := range dnsPool[n] {
-			if !in[ip+":5070"] {
-				return append(out, ip+":5070")
+			if !in[ip+":"+portOf[n]] {
+				return append(out, ip+":"+portOf[n])
 			}
 		}
 	}
